@@ -116,7 +116,7 @@ class PackageGenerator:
         self.inits: dict[str, list[str]] = {}  # dotted package -> lines of its __init__.py
         self.extra_files: dict[str, str] = {}
         self.class_registry: list[tuple[str, str]] = []  # (module qname, class name) of importable public classes
-        self.probes: dict = {"inherit_groups": [], "tie_reexports": [], "homonyms": [], "foreign": []}
+        self.probes: dict = {"inherit_groups": [], "tie_reexports": [], "homonyms": [], "foreign": [], "aliases": {}}
         self.top = self.r.choice(["mypkg", "alphalib", "corelib"])
         if "SNAKE_NAMES" in self.features:
             self.top = self.r.choice(["my_pkg", "alpha_lib", "core_lib_x"])
@@ -600,6 +600,8 @@ class PackageGenerator:
             tgt = r.choice([top, f"{top}.{sub_a}"])
             self.inits[tgt].append(f"from {ma.qname} import _HiddenWorker as Worker")
             self.inits[tgt].append(f"from {ma.qname} import _hidden_helper as helper")
+            self.probes["aliases"][f"{ma.qname}._HiddenWorker"] = ["Worker"]
+            self.probes["aliases"][f"{ma.qname}._hidden_helper"] = ["helper"]
             if r.random() < 0.5:
                 self.inits[tgt].append(f"from {ma.qname} import plain_helper")
             mu = self.new_module(top, "alias_user")
